@@ -1,6 +1,6 @@
 SPECIFICATION Spec
 CONSTANTS MaxDepth = 3
-  Families <- FamT_F2
+  Families <- FamNewT
   StoreByCopy = TRUE
   TailKeepsSets = TRUE
   SplitContinues = TRUE
